@@ -75,13 +75,19 @@ class _Sink(io.TextIOBase):
         return len(s)
 
 
-ENV_MODES = {'O': ['-O'], 'Werror': []}           # Werror: the filter that -W error installs is put around each run
-ENV_MODE_TEXT = {'O': 'interpreter started with -O', 'Werror': 'warnings raised as errors (-W error)'}
+ENV_MODES = {'O': ['-O'], 'Werror': [], 'Threads': []}   # Werror: the -W error filter around each run; Threads: sim/duo.py
+ENV_MODE_TEXT = {'O': 'interpreter started with -O', 'Werror': 'warnings raised as errors (-W error)',
+                 'Threads': 'a second caller thread interleaved at library lines by a seeded scheduler'}
 
 
 def pymode():
     """Which non-default interpreter configuration this process stands for ('' = default)."""
     return os.environ.get('VERIF_PYMODE', '')
+
+
+def _short(r):
+    t = repr(r)
+    return t if len(t) <= 90 else t[:60] + '...' + t[-20:]
 
 
 def execute_plan(engine, plan, prop, known, keep_trace=False):
@@ -99,10 +105,35 @@ def execute_plan(engine, plan, prop, known, keep_trace=False):
             # the interpreter configuration "-W error": every warning the library (or anything it
             # calls) emits is raised as an exception at the point where it is emitted
             warnings.simplefilter('error')
-        try:
-            engine.execute(plan, ctx)
-        except StopRun:
-            pass
+        dcfg = (plan.get('config') or {}).get('duo')
+        if dcfg:
+            # a second caller thread runs operations of its own, interleaved with this run at library lines
+            # by a scheduler seeded from the plan (sim/duo.py)
+            from . import duo
+
+            def fn_a():
+                try:
+                    engine.execute(plan, ctx)
+                except StopRun:
+                    pass
+            ops = duo.build_ops(dcfg)
+            D = duo.Duo(dcfg)
+            during = D.run(fn_a, ops)
+            alone = [duo._safe(o) for o in ops]
+            if D.switches:
+                ctx.fault('second-caller-thread.switches', D.switches)
+            else:
+                ctx.probe('second-caller-thread-never-scheduled')
+            for o, x, y in zip(ops, during, alone):
+                if x != y:
+                    ctx.violate('%s.concurrent' % prop, 'a second caller thread working on objects of its own got %s for an operation (%s) that gives %s when run alone'
+                                % (_short(x), o['k'], _short(y)), op=o['k'])
+                    break
+        else:
+            try:
+                engine.execute(plan, ctx)
+            except StopRun:
+                pass
     if sink.n:
         ctx.probe('library-printed-to-stdout')
     return ctx
@@ -204,6 +235,10 @@ def plan_for(engine, base, prop, tier, i):
     plan = engine.gen_plan(rng, prop, tier, i)
     plan['seed'] = seed
     plan['index'] = i
+    if pymode() == 'Threads':
+        from . import duo
+        if prop in duo.DUO_OPS:
+            plan.setdefault('config', {})['duo'] = duo.duo_config(seed, prop)
     return plan
 
 
@@ -610,12 +645,19 @@ def run_check(prop, tier, base_seed=None, budget_s=None, workers=None, runs=None
         import tempfile
         agg['envpass'] = {}
         for mode in ENV_MODES:
+            if mode == 'Threads':
+                from . import duo as _duo
+                if prop not in _duo.DUO_OPS:
+                    agg['envpass'][mode] = {'runs': 0, 'note': 'not run: every operation of this property depends on process-wide configuration (selected chain) that the simulated parties change'}
+                    continue
             tmpd = tempfile.mkdtemp(prefix='vf-py%s-' % mode, dir='/var/tmp')
             env = dict(os.environ)
             env.update(VERIF_PYMODE=mode, VERIF_EVIDENCE_DIR=tmpd, VERIF_SEED=str(base_seed), VERIF_TIER=tier,
                        VERIF_BUDGET_S=str(max(8.0, budget_s / 6.0)), VERIF_RUNS=str(max(50, runs // 8)))
-            if nsys > 2000:
+            if nsys > 2000 or mode == 'Threads':
                 env['VERIF_SKIP_SYSTEMATIC'] = '1'
+            if mode == 'Threads':
+                env['VERIF_RUNS'] = str(max(40, min(160, runs // 12)))
             try:
                 pr = subprocess.run([sys.executable, os.path.join(VERIF, 'vf'), 'check', prop, '--tier', tier], capture_output=True, text=True, env=env,
                                     cwd=VERIF, timeout=max(600.0, budget_s))
